@@ -14,6 +14,10 @@ RULE = ("TimeArith.tla: durations <<months, days, sec, ns>> as a group with inte
 
 def run(ctx):
     r = ctx.tlc("time", "MCTime", "MCTime_c17.cfg", workers=4, timeout=900)
+    # the month-free laws (canonical representation, add/sub inverse, difference adds back, group axioms, unit changes
+    # truncate toward the past and compose to the coarser unit, truncation to q seconds) for EVERY instant and duration:
+    # TLA+ proof system, 217 obligations, on the operators TimeArith.tla itself uses (TimeIdx.tla)
+    ctx.tlaps("time-proof", "TimeProof", needs=("TimeIdx",))
     binp = ctx.build("tvh-time")
     ctx.harness("time", binp, ["replay-time", "--in", r["emitted"]])
     ctx.assumptions += BASE_ASSUMPTIONS[:1] + [
